@@ -15,8 +15,14 @@ namespace Refine.Props.C08Part
 open Refine.Model.Meshb Refine.Model.PartMeshb Refine.Lemmas.PartMeshb
 open Refine.Gen.PartMacros
 
-/-- **partRead_eq_serial** (vertices, cells, CAD bytes, dimension flag; the geometry-association records are tied by
-    the streams only): if rank 0 accepts the file (`parseWith … = ok p`), the serial reader accepts it
+/- FULL STATEMENT (`partRead_eq_serial`), of which the theorem below is the proved part: under the same hypotheses,
+   additionally `gatherGeoms w` (every geometry-association record from the rank that owns its vertex) is a permutation
+   of `m.geoms`.  Missing: the per-rank `ref_geom_add` upsert of `addGeoms` / `geomGhost` against the serial
+   `rdGeoms` (same upsert, but over all vertices, and with the index check the parallel reader does not have).
+   The geometry records are compared by the streams (per-rank dump == model, python oracle against the file). -/
+
+/-- **partRead_eq_serial**, proved part (vertices, cells, CAD bytes, dimension flag; the geometry-association records
+    are tied by the streams only): if rank 0 accepts the file (`parseWith … = ok p`), the serial reader accepts it
     (`decodeMeshbWith … = ok m`), coordinates are `double`s (version ≥ 2), `1 ≤ nnode < 2^31` and no two cells of a
     group have the same vertex set, then on every rank count `np ≥ 1` and every chunk constant the parallel read
     succeeds and gathering it gives `m`: the vertices in order with their coordinates bit for bit, per cell group a
